@@ -6,6 +6,7 @@ import (
 	"runtime"
 	"sync"
 	"sync/atomic"
+	"time"
 
 	"github.com/nulab/autog"
 	"github.com/nulab/autog/graph"
@@ -103,7 +104,7 @@ func evalC15(x *Ctx, in Input) {
 		if x.st.Violations+sumMap(x.st.Known) > viol0 || len(x.replayed) > 0 {
 			return // a counterexample for this scenario has been recorded: no need to enumerate the rest
 		}
-		if execs >= c15MaxSchedules {
+		if execs >= c15MaxSchedules || (!x.deadline.IsZero() && execs%64 == 0 && time.Now().After(x.deadline)) {
 			capped = true
 			return
 		}
